@@ -7,7 +7,7 @@ from fractions import Fraction
 import z3
 
 from vlib import env, ucase
-from vlib.zrun import explore_and_prove, uf_prover, eq_term, concretize, pyrepr
+from vlib.zrun import twin_verdict, explore_and_prove, uf_prover, eq_term, concretize, pyrepr
 from vlib.zsym import Real, Int, Const, ZBackend, SymNum, lift, model_value
 
 META = {
@@ -183,7 +183,7 @@ def task_piecewise(npieces):
     o = explore_and_prove(fn, assum, goal)
     ot = explore_and_prove(fn, assum, lambda p: goal(p, True), max_fail=1)
     res = dict(engine="Z", functions=[env.describe(create_Piecewise)], obligations=o.obligations, discharged=o.discharged, violations=[],
-               inconclusive=list(o.inconclusive), queries=o.queries, paths=o.paths, solver_s=o.solver_s, twin="violated" if ot.failed else "passed",
+               inconclusive=list(o.inconclusive), queries=o.queries, paths=o.paths, solver_s=o.solver_s, twin=twin_verdict(ot),
                bounds="%d pieces, symbolic increasing bounds, x anywhere in [first bound, last bound] (incl. the break points)" % npieces,
                sample={"pieces": npieces, "oracle": "value of the first piece whose closed interval contains x (what the sympy Piecewise denotes)"})
     for p, m, g in o.failed[:1]:
